@@ -22,6 +22,9 @@ SUMMARIES = {
 }
 
 
+BOTTOM = (float("inf"), float("-inf"))     # empty interval: join identity (payload of a variant that was not constructed)
+
+
 def ty_range(ty):
     return INT.get(ty)
 
@@ -187,7 +190,15 @@ class Analysis:
                     del st[k2]
                 names = rv.get("fields") or [str(i) for i in range(len(rv["ops"]))]
                 if rv.get("ak") == "Adt" and rv.get("variant") and rv.get("adt", "").endswith(("Option", "Result")):
-                    pass
+                    # payload of the constructed variant; the payloads of the other variant are vacuous (bottom joins as identity)
+                    var = rv["variant"]
+                    other = {"Some": (), "None": ("Some",), "Ok": ("Err",), "Err": ("Ok",)}.get(var, ())
+                    for i_, op in enumerate(rv["ops"]):
+                        v = self.operand(op, st)
+                        if v is not None:
+                            st[key + ("as " + var, str(i_))] = v
+                    for o_ in other:
+                        st[key + ("as " + o_, "0")] = BOTTOM
                 else:
                     for nm, op in zip(names, rv["ops"]):
                         v = self.operand(op, st)
